@@ -153,6 +153,8 @@ Print Assumptions C04_disk_revolve_only_leftover_partial.
         body += lifted('C03_hrevolve_refuted','Refuted','C03_hrevolve_refuted','REFUTED for HRevolve (known finding D8-C03): HRevolve(11, 1, 2, uf=1, ub=1, wd=0, rd=1) holds three DISK checkpoints with two disk units (first monitor error E_budget DISK)')
     if pid == 'C02':
         body += lifted('C02_revolve_terminates','RevolveRun','revolve_terminates','completeness (Revolve): the op list is finite; from some request count on the schedule is exhausted, with no error on the way and exactly TC N s forward steps executed')
+        body += lifted('C02_disk_revolve_terminates','DiskRun','disk_revolve_terminates','completeness (DiskRevolve, snapshots_in_ram >= 1): the op list is finite; from 2 |ops| + 2 requests on the schedule is exhausted, nothing raised on the way, and the only executor verdict possible besides "no error" is E_leftover at the final EndReverse (D8-C04)')
+        body += lifted('C02_periodic_terminates','DiskRun','periodic_terminates','completeness (PeriodicDiskRevolve): the same')
         body += lifted('C02_mixed_terminates','MixBridge','mixed_terminates','completeness (Mixed, both planner paths): within N (N + 3) + N + 2 requests the schedule is exhausted (EndReverse has been emitted, by C09_flags), and by then exactly C N S forward steps have been executed')
     for new, mod, name, cm in PARTIAL_SAFETY:
         body += lifted(new % pid, mod, name, cm)
@@ -229,13 +231,15 @@ Proof. exact twolevel_run. Qed.
 Print Assumptions C09_twolevel_passes.
 
 """
-mk('C09', ['MSTerm','OnlineFlags','Flags','RevConv','RevBridge4','RevolveRun','PassRepeat','Online'], [
+mk('C09', ['MSTerm','OnlineFlags','Flags','RevConv','RevBridge4','RevolveRun','PassRepeat','Online','DiskRun','DiskBridge3'], [
    lifted('C09_flags','Flags','C09_flags','FLAGS, all thirteen classes, every parameter tuple the constructor accepts, every history of next() / finalize(k) requests (ops), any executor parameters: before the first request is_exhausted = is_running = False; after every next() is_running = True; is_exhausted after a request = (the final action of the class has been yielded so far) -- final_action: EndForward for None, EndReverse for the offline classes and SingleDisk(move), none for SingleMemory, SingleDisk(copy), TwoLevel; no action is yielded once the final action has been seen (only StopIteration / an exception), and finalize never changes the flag. flags_hist is the trace rule, defined in Proofs/OnlineFlags.v'),
    C09_runs,
    lifted('C09_multistage_flags_on_runs','MultistageRun','multistage_flags','the same rule read on the raise-free Multistage runs of the run theorem (every line: is_running, and is_exhausted = (the action is EndReverse), StopIteration only with is_exhausted)'),
    lifted('C09_mixed_flags_on_runs','MixBridge','mixed_flags','... and on the Mixed runs'),
    lifted('C09_multistage_terminates','AllocTotal','multistage_terminates','the offline Multistage schedule concludes: EndReverse within 6 * TC N S + 1 requests'),
    lifted('C09_revolve_terminates','RevolveRun','revolve_terminates','the offline Revolve schedule concludes'),
+   lifted('C09_disk_revolve_terminates','DiskRun','disk_revolve_terminates','the offline DiskRevolve schedule concludes (is_exhausted True after 2 |ops| + 2 requests at most)'),
+   lifted('C09_periodic_terminates','DiskRun','periodic_terminates','the offline PeriodicDiskRevolve schedule concludes'),
    lifted('C09_mixed_terminates','MixBridge','mixed_terminates','the offline Mixed schedule concludes: exhausted within N (N + 3) + N + 2 requests'),
    lifted('C09_passes_repeat','PassRepeat','passes_repeat','EXACT REPEAT (SingleMemory, SingleDisk copy, TwoLevel): two loop-head states of the same object (r = 0, not exhausted, same class / pc / max_n; n and -- for TwoLevel -- the emptied snapshot list may differ) emit the same outcomes for ever (outs j = the outcomes of j requests)'),
    lifted('C09_after_endreverse','PassRepeat','after_endreverse','... and the request that yields EndReverse of a non-exhausting object leaves it in such a loop head with the same class and max_n; the head reached by EndForward is of the same form (C09_*_passes give executability of every pass)'),
